@@ -386,6 +386,15 @@ func genDocPair(rng *hx.Rand, card bool, call string) (string, *WDoc, *WDoc) {
 			}
 		}
 	}
+	// any 2xx propstat status is a success (RFC 4918 section 13.1 lets a server use e.g. 204
+	// or 207 inside a propstat); rarely report a property with one of them
+	for _, c := range content {
+		for i := range c.answers {
+			if c.answers[i].Code == 200 && rng.Chance(1, 25) {
+				c.answers[i].Code = pick64(rng, []int64{201, 204, 207, 299})
+			}
+		}
+	}
 	mk := func(canonical bool) *WDoc {
 		d := &WDoc{Token: token}
 		for _, c := range content {
